@@ -318,7 +318,8 @@ def run(ctx):
     raises = [m for m in body_walk(f) if isinstance(m, ast.Raise)]
     ctx.check(bool(raises), "R19.3", uid, "mismatch raises", msg="deserialize_wire_msg no longer raises on a signature mismatch", key="mismatch raises", node=f, rel="jupyter_kernel.py")
     ms = program.func(f"{K}.msg_sign")
-    copies = [m for m in body_walk(ms) if isinstance(m, ast.Assign) and norm(m.value) == "self.auth.copy()"]
+    copies = [m for m in body_walk(ms) if isinstance(m, ast.Assign) and isinstance(m.value, ast.Call) and isinstance(m.value.func, ast.Attribute) and m.value.func.attr == "copy"
+              and "auth" in norm(m.value.func.value)]
     upd = [m for m in body_walk(ms) if isinstance(m, ast.Call) and isinstance(m.func, ast.Attribute) and m.func.attr == "update"]
     ok = bool(copies) and all(norm(u.func.value) == norm(copies[0].targets[0]) for u in upd) and bool(upd)
     ctx.check(ok, "R19.3", f"{K}.msg_sign", "HMAC state copied per message", msg="msg_sign updates the shared HMAC object instead of a per-message copy: signatures depend on earlier messages",
@@ -504,15 +505,22 @@ def run(ctx):
 
     ctx.rule("R19.5", "a subscriber connection that is closed is also taken out of the broadcast set (a later broadcast to a closed writer resets the shell channel)", floor=1)
     uid = "jupyter_kernel.py::Kernel.iopub_listen"
-    pol = FlowPolicy(program, events=["iopub_socket.close"], may_raise_all=True, cancel=True, locals_={"self", "iopub_socket"}, record_atoms=False)
+    # the local that holds the subscriber's socket: whatever ZmqSocket(...) is bound to
+    lf = program.func(uid)
+    sv = [n.targets[0].id for n in body_walk(lf) if isinstance(n, ast.Assign) and len(n.targets) == 1 and isinstance(n.targets[0], ast.Name) and isinstance(n.value, ast.Call)
+          and call_name(n.value) == "ZmqSocket"]
+    if len(sv) != 1:
+        raise AnalysisError(f"iopub_listen: the subscriber's ZmqSocket is not bound to one local ({sv})")
+    sockv = sv[0]
+    pol = FlowPolicy(program, events=[f"{sockv}.close"], may_raise_all=True, cancel=True, locals_={"self", sockv}, record_atoms=False)
     pol.loop_unroll = 1
     out = run_flow(program, uid, pol, heap={"self.iopub_socket": ListV((), "set")})
     n_closed, stale = 0, []
     for kind, c, desc in exits(out):
         evs = [e[1] for e in c.trace if e[0] == "call"]
-        sock = c.env.get("iopub_socket")
+        sock = c.env.get(sockv)
         members = c.heap.get("self.iopub_socket")
-        if "iopub_socket.close" in evs and kind == "return" and sock is not None:
+        if f"{sockv}.close" in evs and kind == "return" and sock is not None:
             n_closed += 1
             if not isinstance(members, ListV) or sock in members.items:
                 stale.append(desc)
